@@ -101,6 +101,7 @@ def consts(cfg, which, tracefile=None):
         d["Steps"] = "{}"
     for k in ("D", "F", "K", "H"):
         d[k] = str(t[k])
+    d["DD"], d["DC"] = lite_defaults(cfg, t, which)
     acc = t["acc"]
     d["Acc"] = "[host |-> %d, srflx |-> %d, prflx |-> %d, relay |-> %d]" % (acc["host"], acc["srflx"], acc["prflx"], acc["relay"])
     if tracefile is not None:
@@ -146,10 +147,21 @@ def gen_tr(workdir, name, cfg, tracefile):
     return mod
 
 
+def lite_defaults(cfg, t, which):
+    """Per-agent disconnected timeout in effect and disconnected part of the initial checking deadline. A lite agent that
+    keeps its defaults (cfg liteDefault) has the lite default (10 s) as disconnected timeout, while its initial checking
+    deadline is computed with the full agent's default (5 s), agent_config.go; model checking uses 4 and 2 ticks for them."""
+    lite_d, full_d = (10000, 5000) if which == "tr" else (4, 2)
+    ld = cfg.get("liteDefault", {})
+    dd = {a: (lite_d if cfg["lite"][a] and ld.get(a) else t["D"]) for a in "AB"}
+    dc = {a: (full_d if cfg["lite"][a] and ld.get(a) else t["D"]) for a in "AB"}
+    return "[A |-> %d, B |-> %d]" % (dd["A"], dd["B"]), "[A |-> %d, B |-> %d]" % (dc["A"], dc["B"])
+
+
 def gen_mon(workdir, name, cfg, tracefile, predicates):
     t = cfg["tr"]
     c = consts(cfg, "tr")
-    d = {"D": str(t["D"]), "F": str(t["F"]), "H": str(t["H"]), "TraceFile": q(tracefile),
+    d = {"D": str(t["D"]), "F": str(t["F"]), "H": str(t["H"]), "DD": c["DD"], "DC": c["DC"], "TraceFile": q(tracefile),
          "NatMap": c["NatMap"], "Reach": c["Reach"],
          "LocA": "{" + ", ".join(map(q, cfg["loc"]["A"] + [cfg["nat"][l] for l in cfg["loc"]["A"] if l in cfg["nat"]])) + "}",
          "LocB": "{" + ", ".join(map(q, cfg["loc"]["B"])) + "}",
